@@ -105,7 +105,7 @@ def _fr(s) -> Fraction:
     return Fraction(s)
 
 
-def build_context(case: dict, rng_obj):
+def _ctor_context(case: dict, rng_obj):
     import fpy2 as fp
     from fpy2.number import RealFloat
     fam = case['family']
@@ -149,6 +149,42 @@ def build_context(case: dict, rng_obj):
     if fam == 'SMFixed':
         return fp.SMFixedContext(pr['scale'], pr['nbits'], rm, ov, k, rng=rng_obj)
     raise ValueError(fam)
+
+
+BUILDS = ['ctor', 'ctor', 'with_rng', 'with_rng_none', 'with_k', 'with_rm', 'from_format']
+
+
+def build_context(case: dict, rng_obj, decoy_log: 'SourceLog | None' = None):
+    """
+    The context under test, reached the way `case['build']` says: straight from
+    the constructor, or through `with_params` / `from_format`, which must carry
+    the random source, the bit count and the mode along.  A decoy source stands
+    in wherever the final source must *replace* an earlier one.
+    """
+    build = case.get('build', 'ctor')
+    if build == 'ctor':
+        return _ctor_context(case, rng_obj)
+    decoy = ScriptedRandom(decoy_log if decoy_log is not None else SourceLog())
+    if build == 'with_rng':
+        return _ctor_context(case, decoy).with_params(rng=rng_obj)
+    if build == 'with_rng_none':
+        return _ctor_context(case, None).with_params(rng=rng_obj)
+    if build == 'with_k':
+        k = case['k']
+        other = 0 if k is None else (k + 1 if k < 3 else k - 1)
+        return _ctor_context(dict(case, k=other), rng_obj).with_params(num_randbits=k)
+    if build == 'with_rm':
+        import fpy2 as fp
+        other = 'RTZ' if case['mode'] != 'RTZ' else 'RNE'
+        return _ctor_context(dict(case, mode=other), decoy).with_params(rm=getattr(fp.RM, case['mode']), rng=rng_obj)
+    if build == 'from_format':
+        import fpy2 as fp
+        base = _ctor_context(dict(case, k=0), None)
+        kw = {'rm': getattr(fp.RM, case['mode']), 'num_randbits': case['k'], 'rng': rng_obj}
+        if case.get('overflow'):
+            kw['overflow'] = getattr(fp.OV, case['overflow'])
+        return type(base).from_format(base.format(), **kw)
+    raise ValueError(build)
 
 
 def grid_of(case: dict, ctx=None) -> dict:
@@ -396,6 +432,7 @@ def gen_case(r: random.Random, tier: str, force: dict | None = None) -> dict | N
         k = force['k']
     case = {'family': fam, 'params': params, 'mode': mode, 'k': k, 'overflow': gen_overflow(r, fam)}
     case['source'] = r.choice(SOURCES)
+    case['build'] = r.choice(BUILDS)
     case['route'] = r.choice(['round', 'round', 'round_at', 'op_add', 'op_sub', 'op_mul', 'op_div', 'op_sqrt', 'op_fma'])
     case['negative'] = r.random() < 0.45
     case['want'] = force.get('want') or r.choice(POSITIONS + ['normal', 'normal'])
@@ -551,8 +588,9 @@ def run_case(case: dict) -> dict:
         info['skipped'] = why
         return {'violations': [], 'info': info}
 
+    decoy_log = SourceLog()
     try:
-        ctx = build_context(case, rng_obj)
+        ctx = build_context(case, rng_obj, decoy_log)
     except (ValueError, TypeError) as e:
         return skip(f'context rejected: {type(e).__name__}')
     grid = grid_of(case, ctx)
@@ -626,7 +664,7 @@ def run_case(case: dict) -> dict:
 
     def vio(cls, detail):
         sig = {'cls': cls, 'family': case['family'], 'mode': case['mode'], 'position': position,
-               'route': route_used}
+               'route': route_used, 'build': case.get('build', 'ctor')}
         violations.append({'property': PROP, 'cls': cls, 'signature': sig, 'detail': detail,
                            'case': case, 'info': {kk: vv for kk, vv in info.items()}})
 
@@ -739,6 +777,8 @@ def run_case(case: dict) -> dict:
                 vio('source-kind-dependence', {'r': rv, 'source': other, 'first': outcomes[rv], 'second': ob,
                                                'draws': calls})
                 break
+    if decoy_log.calls:
+        vio('replaced-source-still-used', {'draws': list(decoy_log.calls)[:4], 'build': case.get('build')})
     # a context holding its own source must not touch the process-global one
     if rng_obj is not None:
         glog = SourceLog()
@@ -785,6 +825,7 @@ def run(seed: int, tier: str) -> dict:
         st.count('route', info['route'])
         st.count('enc', info['enc'])
         st.count('source', case['source'])
+        st.count('build', case.get('build', 'ctor'))
         st.count('k', str(case['k']))
         st.count('draws_swept', 'total', 1 << info.get('k_eff', 0))
         if info.get('fault_rng_fail'):
@@ -818,7 +859,7 @@ def minimise(v: dict) -> dict:
     if not same_failure(case, cls):
         v['minimised'] = False
         return v
-    steps = [('route', 'round'), ('enc', 'real'), ('source', 'Random'), ('n_delta', 0)]
+    steps = [('route', 'round'), ('enc', 'real'), ('source', 'Random'), ('n_delta', 0), ('build', 'ctor')]
     for key, val in steps:
         if case.get(key) != val:
             c2 = dict(case, **{key: val})
@@ -881,6 +922,7 @@ def main(tier: str) -> int:
         'by_route': dict(c.get('route', {})),
         'by_encoding': dict(c.get('enc', {})),
         'by_source': dict(c.get('source', {})),
+        'by_build_route': dict(c.get('build', {})),
         'by_k': dict(c.get('k', {})),
         'by_offset': dict(c.get('offset', {})),
         'skipped': dict(c.get('skipped', {})),
